@@ -82,4 +82,25 @@ PROPS = {
             rap("stream", "^TestC11Stream$", 5000, 40000, 2, 8),
         ],
     },
+    "C12": {
+        "level": "exploration",
+        "level_text": "generated search over PES headers against an independent ISO 13818-1 2.4.3.6 encoder: decode direction through the "
+                      "Demuxer (any packetisation), encode direction through Muxer.WriteData and an independent TS decoder; small "
+                      "sub-domains (trick mode byte, CRC-16, flag bytes, single-bit timestamps) are enumerated; Duration() is checked "
+                      "against exact rational arithmetic",
+        "level_note": "trusts harness/ref/pes.go; stream ids 0xBC/0xF0/0xF1/0xF2/0xF8/0xFF (ISO and the library's documented rule disagree on "
+                      "whether an optional header follows) and the pack header field (marked unsupported in the library) are outside the domain",
+        "technique": "rapid property tests + enumeration against an independent PES header encoder; exact big-integer oracle for clock conversion",
+        "rule": "rapid-generated PES models (decode: all flag combinations, header stuffing, four PES_packet_length modes; encode: writer-supported "
+                "subset, payload sizes around k*184 and 65535) and enumerated sub-domains; non-trivial = >= 2 optional header parts or non-exact "
+                "length; distinct by PES bytes",
+        "assumptions": ["PTS_DTS_flags '01' (forbidden) and pack_header_field are never generated",
+                        "PES private data is 16 bytes on the write side"],
+        "units": [
+            rap("decode", "^TestC12Decode$", 12000, 100000, 4, 16),
+            det("sweep", "^TestC12Sweep$"),
+            rap("encode", "^TestC12Encode$", 3000, 25000, 4, 16),
+            rap("clock", "^TestC12Clock$", 20000, 200000, 1, 4),
+        ],
+    },
 }
